@@ -29,10 +29,18 @@ open Frame MsgObj
 
 /-! ## 1. the body verdict: `json.Unmarshal(buffer, &msg)` for a registered struct -/
 
-/-- ASCII part of encoding/json `foldName` (fold.go); member names with non-ASCII bytes are outside the
-    driver's domain unless they match exactly -/
+/-- encoding/json `foldName` (fold.go `appendFoldedName`), on the UTF-8 bytes of a member name: ASCII letters
+    fold to one case; a multi-byte rune folds to the smallest rune of its simple-folding orbit (`foldRune`) —
+    only TWO non-ASCII runes have an ASCII letter in their orbit: U+212A KELVIN SIGN (E2 84 AA, orbit K k) and
+    U+017F LATIN SMALL LETTER LONG S (C5 BF, orbit S s); every other non-ASCII rune folds to a non-ASCII rune and
+    so never equals a (pure ASCII, `schema_names_lowercase`) field name — its bytes are kept as they are.
+    (The name has passed `unquote`, i.e. it is valid UTF-8: the byte patterns below occur only as those runes.) -/
 def lowerB (b : Nat) : Nat := if 65 ≤ b ∧ b ≤ 90 then b + 32 else b
-def lower (s : Str) : Str := s.map lowerB
+def lower : Str → Str
+  | 226 :: 132 :: 170 :: r => 107 :: lower r
+  | 197 :: 191 :: r => 115 :: lower r
+  | b :: r => lowerB b :: lower r
+  | [] => []
 
 /-- decode.go `d.object`: `f := fields.byExactName[key]; if f == nil { f = fields.byFoldedName[fold(key)] }`
     (the first field in declaration order wins a folded clash) -/
@@ -53,6 +61,9 @@ def udpFieldOf (k : Str) : Option Nat :=
   else if lower k == lower kIP then some 0 else if lower k == lower kPort then some 1
   else if lower k == lower kZone then some 2 else none
 
+/-- the JSON number text `-0` -/
+def negZero : Str := [45, 48]
+
 def int64Lo : Int := -9223372036854775808
 def int64Hi : Int := 9223372036854775807
 
@@ -65,6 +76,7 @@ def udpMemberFits (ipOk : Str → Bool) (kv : Str × J) : Bool :=
   | some _, .null => true
   | some 0, .str s => ipOk s
   | some 1, .num i => decide (int64Lo ≤ i) && decide (i ≤ int64Hi)
+  | some 1, .real t => t == negZero      -- `Port` is an `int`: `-0` is 0
   | some 2, .str _ => true
   | some _, _ => false
 
@@ -72,7 +84,9 @@ def udpMemberFits (ipOk : Str → Bool) (kv : Str × J) : Bool :=
     (decode.go `literalStore`, `array`, `object`); `subFits n ms` = the same question for the members
     `ms` of an object stored into the nested struct `n`.
     `null` into anything is a no-op; a number must be an integer literal (`strconv.ParseInt/ParseUint`)
-    within the range of the Go type (`OverflowInt/OverflowUint`). -/
+    within the range of the Go type (`OverflowInt/OverflowUint`).  The one JSON number text that is an integer
+    literal for `ParseInt` without being one of `J.num`'s is `-0` (kept as `.real "-0"`): a signed field takes
+    it as 0, `ParseUint` refuses the sign (uint16 fields: `lo = 0`). -/
 def fitsF (ipOk : Str → Bool) (subFits : String → List (Str × J) → Bool) (f : FieldS) : J → Bool
   | .null => true
   | j =>
@@ -80,6 +94,7 @@ def fitsF (ipOk : Str → Bool) (subFits : String → List (Str × J) → Bool) 
     | .str, .str _ => true
     | .bool, .bool _ => true
     | .int, .num i => decide (f.lo ≤ i) && decide (i ≤ f.hi)
+    | .int, .real t => t == negZero && decide (f.lo < 0)
     | .strs, .arr l => l.all isStrOrNull
     | .smap, .obj ms => ms.all (fun kv => isStrOrNull kv.2)
     | .udp, .obj ms => ms.all (udpMemberFits ipOk)
